@@ -23,29 +23,23 @@ theorem single_kw_tie :
        some 17, some 16, some 19] := by decide +kernel
 
 /-- dispatch of `Read` after the single-rune tokens: `#`, `"`, `.` -/
-theorem dispatch_tie : readDispatch = [[35], [34], [46]] := by decide
-
-theorem comment_tie : commentCases = [[0], [13, 10]] := by decide
-theorem blockstring_tie : blockStringCases = [[32, 9, 13, 10], [0], [34], [92]] := by decide
-theorem string_tie : stringCases = [[32, 9], [0], [34, 13, 10], [92]] := by decide
-
+theorem dispatch_tie : readDispatch = [[35], [34], [46]] := by decide +kernel
+theorem comment_tie : commentCases = [[0], [13, 10]] := by decide +kernel
+theorem blockstring_tie : blockStringCases = [[32, 9, 13, 10], [0], [34], [92]] := by decide +kernel
+theorem string_tie : stringCases = [[32, 9], [0], [34, 13, 10], [92]] := by decide +kernel
 theorem ident_tie : identConds =
-    [["r>='a'&&r<='z'"], ["r>='A'&&r<='Z'"], ["r>='0'&&r<='9'"], ["r==runes.SUB"], ["r==runes.UNDERSCORE"], []] := by
-  decide
-theorem digit_tie : digitConds = [["r>='0'&&r<='9'"], []] := by decide
-
+    [["r>='a'&&r<='z'"], ["r>='A'&&r<='Z'"], ["r>='0'&&r<='9'"], ["r==runes.SUB"], ["r==runes.UNDERSCORE"], []] := by decide +kernel
+theorem digit_tie : digitConds = [["r>='0'&&r<='9'"], []] := by decide +kernel
 /-- `keyword.Keyword` iota values equal `Kw.toNat` -/
 theorem keyword_tie : keywordValues.map (·.2) =
     [Kw.undefined, .ident, .comment, .eof, .colon, .bang, .lt, .tab, .space, .comma, .atSign, .dot, .spread,
      .pipe, .slash, .equals, .sub, .and, .quote, .dollar, .string, .blockstring, .integer, .float,
-     .lparen, .rparen, .lbrack, .rbrack, .lbrace, .rbrace].map Kw.toNat := by decide
-
+     .lparen, .rparen, .lbrack, .rbrack, .lbrace, .rbrace].map Kw.toNat := by decide +kernel
 theorem limits_outer_tie : limitsOuterCases =
-    [["keyword.EOF"], ["keyword.LBRACE"], ["keyword.RBRACE"], ["keyword.SPREAD"], ["keyword.IDENT"]] := by decide
+    [["keyword.EOF"], ["keyword.LBRACE"], ["keyword.RBRACE"], ["keyword.SPREAD"], ["keyword.IDENT"]] := by decide +kernel
 theorem limits_keywords_tie : limitsKeywordCases =
-    [["identkeyword.FRAGMENT", "identkeyword.QUERY", "identkeyword.MUTATION", "identkeyword.SUBSCRIPTION"]] := by decide
+    [["identkeyword.FRAGMENT", "identkeyword.QUERY", "identkeyword.MUTATION", "identkeyword.SUBSCRIPTION"]] := by decide +kernel
 theorem limits_conditions_tie : limitsConditions =
     ["if limitDepth&&globalDepth>limits.MaxDepth", "if localDepth>localDepthPeak",
-     "if localDepth>0&&!lastWasSpread", "if limitFields&&fieldsCount>limits.MaxFields"] := by decide
-
+     "if localDepth>0&&!lastWasSpread", "if limitFields&&fieldsCount>limits.MaxFields"] := by decide +kernel
 end GqlVerif.Ties.C05
